@@ -130,8 +130,8 @@ def run(ctx):
         return lambda fc: fc[0] == "is" and fc[1] == "Some" and A.peel(fc[2])[0] == "call" and A.peel(fc[2])[1].endswith("HashMap::<K, V, S, A>::get") \
             and A.path_str(A.peel(fc[2])[2][0]) == "param3" and A.peel(A.peel(fc[2])[2][1])[0] == "agg" and A.peel(A.peel(fc[2])[2][1])[2] == variant
     def nonempty(fc):
-        if fc[0] == "call" and fc[1].endswith("Vec::<T, A>::is_empty") and fc[3] is False:
-            return True
+        if fc[0] == "call" and (fc[1].endswith("Vec::<T, A>::is_empty") or fc[1].endswith("<impl [T]>::is_empty")) and fc[3] is False:
+            return True            # (`first()` / `last()` / `split_last()` normalise to the slice form)
         # `zrs.first()` is Some / `zrs.get(0)` is Some: the set is not empty either
         if fc[0] == "is" and fc[1] == "Some":
             pe = A.peel(fc[2])
@@ -204,7 +204,7 @@ def run(ctx):
         if not srcs:
             srcs = [(b, dict(e[3])["rrs"])]
         for sb, se in srcs:
-            pe = A.peel(se)
+            pe = A.peel(A.deep_payload(se))
             alts = pe[1] if pe[0] == "phi" else [pe]
             for a in alts:
                 site = A.fresh_collection_site(a)
@@ -242,15 +242,14 @@ def run(ctx):
         if len(e[2]) != 5:
             ctx.bad("C02.5", "descent:no-apex-flag", "ZoneRecords::resolve has no 'at apex' argument: a referral can be built from the apex node's own NS records", zr.loc(b))
             continue
-        child, name, qtype, rel, apex = e[2]
+        child, name, qtype, rel, apex = [A.deep_payload(x) for x in e[2]]
         pc = A.peel(child)
         ok_child = pc[0] == "field" and pc[1][0] == "downcast" and pc[1][2] == "Some" and A.peel(pc[1][1])[0] == "call" \
             and A.path_str(A.peel(pc[1][1])[2][0]) == "param1.children" and last_label(A.peel(pc[1][1])[2][1])
-        pr = A.peel(rel)
-        ok_rel = pr[0] == "call" and pr[1].endswith("::index") and A.path_str(pr[2][0]) == "param4" and A.peel(pr[2][1])[0] == "agg" \
-            and A.peel(pr[2][1])[1] == "std::ops::Range" and A.peel(dict(A.peel(pr[2][1])[3])["start"])[2] == 0
+        ss = A.subslice(rel)
+        ok_rel = ss is not None and A.path_str(ss[0]) == "param4" and (ss[1] is None or A.peel(ss[1])[2] == 0)
         ok_rest = A.peel(name) == ("param", 2) and A.peel(qtype) == ("param", 3) and A.peel(apex)[0] == "const" and A.peel(apex)[2] in (False, 0)
-        end = A.arith(dict(A.peel(pr[2][1])[3])["end"]) if ok_rel else None
+        end = A.arith(ss[2]) if ok_rel and ss[2] is not None else None
         ok_end = ok_rel and end is not None and end[1] == "Sub"
         ctx.check(ok_child and ok_rel and ok_end and ok_rest, "C02.4", "descent:recursive-call", "children[relative[len-1]].resolve(name, qtype, &relative[0..len-1], false)",
                   "recursive descent is called with (%s)" % ", ".join(A.show(x)[:70] for x in e[2]), zr.loc(b))
@@ -299,11 +298,9 @@ def run(ctx):
         if pe[0] == "agg" and pe[2] == "Some":
             ok, _ = rdc.guarded(b, lambda fc: fc[0] == "call" and fc[1] == T + "DomainName::is_subdomain_of" and fc[3] is True and A.peel(fc[2][0]) == ("param", 2)
                                 and A.path_str(fc[2][1]) == "param1.apex")
-            sl = A.peel(dict(pe[3])["0"])
-            shape = sl[0] == "call" and sl[1].endswith("::index") and A.path_str(sl[2][0]) == "param2.labels"
-            rng = A.peel(sl[2][1]) if shape else None
-            shape = shape and rng[0] == "agg" and rng[1] == "std::ops::Range" and A.peel(dict(rng[3])["start"])[2] == 0
-            end = A.arith(dict(rng[3])["end"]) if shape else None
+            ss = A.subslice(dict(pe[3])["0"])
+            shape = ss is not None and A.path_str(ss[0]) == "param2.labels" and (ss[1] is None or A.peel(ss[1])[2] == 0)
+            end = A.arith(ss[2]) if shape and ss[2] is not None else None
             ok_end = shape and end is not None and end[1] == "Sub" \
                 and bool(Call("len", Path("param2.labels"))(end[2])) and bool(Call("len", Path("param1.apex.labels"))(end[3]))
             ctx.check(ok and ok_end, "C02.4", "relative_domain", "labels[0 .. len(name) - len(apex)] under is_subdomain_of(apex)",
